@@ -178,11 +178,11 @@ type Scenario struct {
 	Settle Dur
 	// AcceptTail: Accept results scripted after all connections: n>0 temporary
 	// errors, then (if AcceptPermanent) a permanent one.
-	AcceptTailTemp  int
-	AcceptPermanent bool
+	AcceptTailTemp   int
+	AcceptPermanent  bool
 	ListenerCloseErr bool
-	X               interface{} // property-specific expectation data
-	Strata          []string    // labels for evidence (which strata this run belongs to)
+	X                interface{} // property-specific expectation data
+	Strata           []string    // labels for evidence (which strata this run belongs to)
 }
 
 func (sc *Scenario) Describe() []string {
